@@ -21,3 +21,23 @@ Proof.
   exists r. split; [eapply rrun_reachable; [apply rr_init | exact E]|].
   destruct l; vm_compute in E; inversion E; subst; cbn; auto.
 Qed.
+
+Inductive breachable (l : launch) : state -> Prop :=
+| br_init : breachable l init
+| br_step : forall s lab s', breachable l s -> bstep l s lab = Some s' -> breachable l s'.
+
+Lemma brun_reachable : forall l ls s s', breachable l s -> brun l s ls = Some s' -> breachable l s'.
+Proof.
+  intros l ls. induction ls as [|x q IH]; intros s s' R H; cbn [brun] in H.
+  - inversion H; subst; exact R.
+  - destruct (bstep l s x) as [s1|] eqn:E; [|discriminate H].
+    eapply IH; [eapply br_step; [exact R | exact E] | exact H].
+Qed.
+
+Lemma bounded_wait_unsafe : forall l, exists s,
+  breachable l s /\ stop_ret s = true /\ active s = true /\ inside s = true.
+Proof.
+  intro l. destruct (brun l init bounded_wait_schedule) as [s|] eqn:E; [| destruct l; vm_compute in E; discriminate E].
+  exists s. split; [eapply brun_reachable; [apply br_init | exact E]|].
+  destruct l; vm_compute in E; inversion E; subst; cbn; auto.
+Qed.
